@@ -24,7 +24,7 @@ func init() {
 		Assumptions: []string{
 			"tablerow output is compared after stripping the attributes of <tr> and <td> (only the row/cell structure is stated)",
 			"map iteration order is not compared (items as a multiset, forloop fields in order)",
-			"negative offset/limit, cols <= 0, tablerow after break, loops over scalars: not asserted",
+			"negative offset/limit, cols <= 0, loops over scalars: not asserted; a tablerow left by break closes its cell and its row (every item in a td, every row in a tr)",
 		},
 		Run: runC11,
 	})
@@ -89,9 +89,6 @@ func runC11(c *core.Ctx) {
 					for tcols := -1; tcols <= 5; tcols++ { // -1 = plain for; 0 = tablerow without cols; k = cols k-... (5 -> cols 4)
 						for kind := 0; kind < 7; kind++ {
 							for bc := 0; bc < 3; bc++ { // 0 none, 1 break, 2 continue
-								if bc == 1 && tcols >= 0 {
-									continue // tablerow after break: not stated
-								}
 								idx++
 								if !c.Mine(idx) {
 									continue
